@@ -99,7 +99,7 @@ func (w *world) walk(owner *sg.Mod, kids []*sg.Node, toks []string, i int, incom
 			}
 			return verdict{at: i, kind: "too-short"}
 		}
-		key := find(n.Kids, n.Key)
+		key := find(n.Kids, n.FirstKey())
 		sp, ok := w.space(owner, key)
 		if !ok {
 			return verdict{unknown: true}
@@ -180,7 +180,7 @@ func randomPath(g *sg.G, w *world) []string {
 			}
 			continue
 		case "list":
-			key := find(n.Kids, n.Key)
+			key := find(n.Kids, n.FirstKey())
 			sp, ok := w.space(owner, key)
 			if !ok {
 				return toks
@@ -303,7 +303,7 @@ func choicePaths(w *world) [][]string {
 			case "container":
 				rec(o, k.Kids, append(append([]string(nil), prefix...), k.Name), depth+1)
 			case "list":
-				key := find(k.Kids, k.Key)
+				key := find(k.Kids, k.FirstKey())
 				if sp, ok := w.space(o, key); ok {
 					if v, ok := sg.MemberOf(sp); ok {
 						rec(o, k.Kids, append(append([]string(nil), prefix...), k.Name, v), depth+1)
